@@ -44,6 +44,7 @@ void Normalizer::Quantifier(SyntaxTree::Node& quant) {
     TupleDeclaration(quant(0), quant(2));
   } else if (declToken == TokenID::NT_ENUM_DECL) {
     EnumDeclaration(quant);
+    Quantifier(quant); // Note: first variable of the enumeration can be a tuple declaration
   }
 }
 
